@@ -130,8 +130,12 @@ func (h *Handler) handleRequest(host *packet.Host, p packet.DHCP4, options packe
 			// Keep state discover in case we get a second request
 			// Free all other states - the host is trying to get an IP from the other server
 			if lease.State != StateDiscover {
+				wasAllocated := lease.State == StateAllocated
 				lease.State = StateFree
 				lease.Addr.IP = netip.Addr{}
+				if wasAllocated {
+					h.saveConfig(h.filename) // the binding must not come back after a restart
+				}
 			}
 
 			if h.mode == ModeSecondaryServer || (h.mode == ModeSecondaryServerNice && captured) {
